@@ -973,6 +973,8 @@ func (fx *fnExec) execReturn(st *state, x *ssa.Return) {
 		}
 	}
 	c := &specCtx{fx: fx, cur: st, old: fx.entry, names: names, pkg: fx.pkg}
+	// locals that dominate the return (in particular addr_x of a heap-allocated local) may be named
+	c.locals = fx.localLookup(st, x.Block())
 	for _, e := range fx.ct.Ensures {
 		v, ok := fx.tryEval(c, e.Expr, "ensures ["+e.Label+"]")
 		if !ok {
